@@ -31,7 +31,7 @@ INDEX_REASONS = {
     "opparse.ASTNode.__init__:nonnulls[0]": "non-empty: asserted just above, and finalize() never passes parts without an operator token",
     "opparse.ASTNode.__init__:nonnulls[-1]": "non-empty (see nonnulls[0])",
     "opparse.Parser.process:current[-1]": "a handle always holds at least [operand, operator]",
-    "selector.Call.problems:data['annotation']": "rows of __ptera_info__ are built by transform() with a fixed key set",
+    "selector.Call.problems:*['annotation']": "rows of __ptera_info__ are built by transform() with a fixed key set (whatever the row is called)",
     "selector.Evaluator.__call__:ast.ops[0]": "an ASTNode always has at least one operator (guarded by hasattr(ast, 'ops'))",
     "selector.InternedMC.__call__:cls._cache[key]": "the key was inserted just above when missing",
     "selector._find_eval_env:glb['__name__']": "module globals define __name__",
@@ -334,6 +334,8 @@ def run(repo, chk):
             key = f"{q}:{site}"
             if why is None and key in INDEX_REASONS:
                 why = INDEX_REASONS[key]
+            if why is None and isinstance(n, ast.Subscript) and isinstance(n.slice, ast.Constant) and isinstance(n.slice.value, str) and isinstance(n.value, ast.Name):
+                why = INDEX_REASONS.get(f"{q}:*[{n.slice.value!r}]")      # a constant key of a row whose name does not matter
             chk.ob("R18.1", f"{key}:index-or-unpack", why is not None, f"ptera/{fi.module}.py:{n.lineno}",
                    f"`{site}` cannot fail: {why}" if why else f"`{site}` may raise IndexError/KeyError/ValueError on a user-controlled value: no length/membership guard on the path and no recorded reason")
     # numeric conversions of selector words
@@ -364,7 +366,8 @@ def run(repo, chk):
     frs = facts_of(rs)
     known = ["op.value in self.operators", "f': {op.type}' in self.operators"]
     ok = ends_in_jump(rs.node.body) and any(isinstance(n, ast.Raise) and not set(known) & set(c) for t, c, n in frs.starting("raise op.location.syntax_error(")) \
-        and all(isinstance(n, (ast.Return, ast.Raise)) or not isinstance(n, ast.stmt) or isinstance(n, ast.Expr) for _, _, n in frs.items)
+        and all(isinstance(n, (ast.Return, ast.Raise)) or not isinstance(n, ast.stmt) or isinstance(n, ast.Expr) or (isinstance(n, ast.Assign) and all(isinstance(t_, ast.Name) for t_ in n.targets))
+                for _, _, n in frs.items)
     chk.ob("R18.1", "opparse.OperatorPrecedenceTower.resolve:unknown-token-is-a-syntax-error", ok, rs.where,
            "a token without priority (stray character, unknown type) is reported as a located syntax error")
 
@@ -438,9 +441,11 @@ def run(repo, chk):
     fme = facts_of(me)
     T = (fme.bound_to("set(sel.all_tags)") or ["set(sel.all_tags)"])[0]
     refused = [c for _, c, n in fme.starting("raise ValueError(") if isinstance(n, ast.Raise)]
-    ok = fme.has("return self._emit", exactly=[f"not {T} or {T} == {{1}}"]) and len(fme.find("return self._emit")) == 1 \
+    plain_only = [[f"not {T} or {T} == {{1}}"], [f"{T} <= {{1}}"], [f"{T} in ({{1}}, set())"], [f"{T} in (set(), {{1}})"]]      # spellings of "no focus tag, or tag 1 only"
+    ok = any(fme.has("return self._emit", exactly=alt) for alt in plain_only) and len(fme.find("return self._emit")) == 1 \
         and fme.has("return self._emit2", when=[f"{T} == {{1, 2}}"]) and len(fme.find("return self._emit2")) == 1 and len(refused) == 1 \
-        and {T, f"{T} != {{1}}", f"{T} != {{1, 2}}"} <= set(refused[0]) and ends_in_jump(me.node.body)
+        and ({T, f"{T} != {{1}}", f"{T} != {{1, 2}}"} <= set(refused[0]) or {f"not {T} <= {{1}}", f"{T} != {{1, 2}}"} <= set(refused[0]) or {f"{T} > {{1}}", f"{T} != {{1, 2}}"} <= set(refused[0])) \
+        and ends_in_jump(me.node.body)
     chk.ob("R18.3", "probe.Probe._make_emitter:focus-pattern-check", ok, me.where,
            "focus patterns other than none / ! / ! with !! (e.g. !! alone) are refused with ValueError")
     for cls in ("probe.Probe", "probe.OverridableProbe"):
